@@ -402,6 +402,9 @@ def _evaluate(rep, repo, cmod):
                     if 'DFF' not in kk and 'LATCH' not in kk and not kk.startswith('__CONST'):
                         GENERIC.add(kk.lower())
                     gates.append((t, kk, list(args)))
+                defined = set(ins_) | {t for t, _k, _a in cd.assigns}
+                if any(o not in defined for o in outs_) or any(a not in defined for _t, _k, args in cd.assigns for a in args):
+                    continue        # a malformed library definition (an output or operand nobody defines): reported by the C19 rules, no implementation to substitute
                 impl = bench_like(env, kind, ins_, outs_, gates)
                 tl = {kind: (impl, outs_[0] if outs_ else None)}
                 ni, no = len(ins_), len(outs_)
